@@ -96,6 +96,18 @@ def extract_shipped(path: Optional[str] = None) -> Shipped:
     return Shipped(data, memo, version, counts, pok, ptxt, tree)
 
 
+def build_from_text(text: str, starts: List[str]) -> Tuple[Dict[str, Any], Dict[int, Any]]:
+    """Compile a (small, fixed) grammar text with the installed Lark: used for reference terminals."""
+    try:
+        from lark import Lark
+        from lark.grammar import Rule
+        from lark.lexer import TerminalDef
+    except Exception as e:  # pragma: no cover
+        raise AnalysisError(f"lark is not importable: {e}")
+    l = Lark(text, parser="lalr", start=starts)
+    return l.memo_serialize([TerminalDef, Rule])
+
+
 def build_reference(grammar_path: Optional[str] = None, starts: Optional[List[str]] = None) -> Tuple[Dict[str, Any], Dict[int, Any], str]:
     grammar_path = grammar_path or os.path.join(SRC, "measured.lark")
     if not os.path.exists(grammar_path):
